@@ -218,6 +218,13 @@ func (p *Parser) Exec(c *Call, cl *simrt.Client) *CallResult {
 	val, err, esc, cnt := p.Parse(c.Opts.FileName(), c.Input, &c.Opts, ctx)
 	simrt.Yield(simrt.YExit)
 	r := &CallResult{ctx: ctx, ExprCnt: cnt, Steps: cl.Steps - start, Aborted: cl.Aborted, Overflow: ctx.Overflow, Backward: ctx.Backward, Nested: ctx.NestedRuns, StatsDigest: ctx.StatsDigest, OptsModified: ctx.OptsModified}
+	if gs := ctx.GlobalStoreSeen(); gs != nil && !cl.Aborted && !ctx.Overflow && len(ctx.Events) > 0 {
+		// entries of globalStore are never reverted: not when Parse returns either
+		// (the map may have been returned by an action, or kept by a block)
+		if n, ok := gs["cnt"].(int); !ok || n != len(ctx.Events) {
+			r.Backward = true
+		}
+	}
 	r.Value = kernel.Render(val)
 	r.ValueNil = val == nil
 	r.ErrNil = err == nil
